@@ -151,7 +151,10 @@ func verifC18_deadline() {
 	c := vNewConn(t, client, nil, 32, 64)
 	nc := NetConn(vBG, c, MessageBinary)
 	side := vChoose("side", 2) // 0 read, 1 write
-	when := vChoose("when", 4) // 0 past, 1 future that passes while idle, 2 fires during an active call, 3 past deadline set during an active call
+	// 0 past, 1 future that passes while idle, 2 fires during an active call, 3 past deadline set during an active call,
+	// 4 future deadline withdrawn (zero / far future) before it passes, then idle and active use beyond the old instant,
+	// 5 a deadline of the other direction is withdrawn: this direction's pending deadline still holds
+	when := vChoose("when", 6)
 	setDL := func(tm time.Time) {
 		if side == 0 {
 			nc.SetReadDeadline(tm)
@@ -169,7 +172,61 @@ func verifC18_deadline() {
 		return err
 	}
 	switch when {
+	case 4:
+		setDL(time.Now().Add(time.Second))
+		if vChoose("withdraw", 2) == 0 {
+			setDL(time.Time{})
+		} else {
+			setDL(time.Now().Add(time.Hour))
+		}
+		time.Sleep(2 * time.Second) // idle beyond the withdrawn deadline
+		vAssert(call() == nil, "C18.deadline.withdrawn-deadline-does-not-expire")
+		// ... and a call that is active beyond another withdrawn deadline stays blocked, the connection open
+		if side == 1 {
+			t.writeBlock = true
+		}
+		setDL(time.Now().Add(time.Second))
+		setDL(time.Time{})
+		res := make(chan error, 1)
+		go func() { res <- call() }()
+		select {
+		case <-res:
+			vAssert(false, "C18.deadline.withdrawn-deadline-does-not-interrupt")
+		case <-time.After(3 * time.Second):
+		}
+		vReach("C18.deadline.withdrawn")
+		vAssert(vIsOpen(c), "C18.deadline.withdrawn-deadline-leaves-open")
+		c.CloseNow()
+		<-res
+	case 5:
+		// this direction has a pending deadline; the other direction's deadline is set and withdrawn meanwhile
+		if side == 0 {
+			p := make([]byte, 2)
+			nc.Read(p) // consume the only message: the next read blocks
+		} else {
+			t.writeBlock = true
+		}
+		setDL(time.Now().Add(time.Second))
+		if side == 0 {
+			nc.SetWriteDeadline(time.Now().Add(time.Hour))
+			nc.SetWriteDeadline(time.Time{})
+		} else {
+			nc.SetReadDeadline(time.Now().Add(time.Hour))
+			nc.SetReadDeadline(time.Time{})
+		}
+		start := vGhostElapsed()
+		err := call()
+		took := vGhostElapsed() - start
+		vReach("C18.deadline.other-direction-withdrawn")
+		vAssert(vAnd(err != nil, took < 2*time.Second+vSlack()), "C18.deadline.own-deadline-still-fires")
 	case 0, 1:
+		mid := side == 0 && vChoose("midMessage", 2) == 1
+		if mid {
+			// part of the message has been read when the deadline passes: the rest must wait for a reset as well
+			p := make([]byte, 1)
+			nc.Read(p)
+			vReach("C18.deadline.mid-message")
+		}
 		if when == 0 {
 			setDL(time.Now().Add(-time.Second))
 		} else {
